@@ -1,5 +1,6 @@
 import PydraModel.StateAlg.Lemmas4
 import PydraModel.Props.C01
+import PydraModel.StateAlg.CallSites
 /-
 C05 — Equivalent splitter spellings agree; ill-formed split/combine requests are rejected early.
 
@@ -197,6 +198,50 @@ theorem C05_combine_reject_iff (taskFields : List Name) (hasCombiner overwrite :
     · simp only [↓reduceIte, true_iff]
       intro c hc
       simpa using List.all_eq_true.mp h c hc
+
+/-! ### "… rejected with an error before any job is executed" — on the call-site skeleton regenerated from the source -/
+
+section BeforeJobs
+open CallSites
+
+/-- Statements about the lists of call events extracted from the CURRENT source (re-checked by `decide` on every run):
+    1. `Task.split` and `Task.combine` raise their errors without constructing a `Job`, running a body or submitting anything;
+    2. in `Submitter.__call__` the `State(...)` construction (where a malformed splitter makes `_ordering` raise) and the
+       "combining without splitting" `ValueError` both precede the construction of the (wrapper) `Job` and `self.submit`;
+    3. in `NodeExecution.start` — the only place among these functions where the jobs of a split task are constructed —
+       `self.state.prepare_states(...)` precedes `self._split_task()` and every `Job(...)`;
+    4. `State.prepare_states` runs `splitter_validation`, `combiner_validation`, `set_input_groups`, `prepare_states_ind`,
+       `prepare_states_val` unconditionally, in this order; `prepare_states_ind` calls `self.splits` (the shape check);
+       `combiner_validation` and `splits` contain their `raise`;
+    5. none of `Node._set_state`, `State.prepare_states`, `prepare_states_ind`, `splits`, `combiner_validation` constructs a
+       `Job` or runs a body. -/
+theorem C05_before_jobs :
+    (taskSplitEv ++ taskCombineEv).all (fun e => !isJob e && !isRun e) = true
+    ∧ taskSplitEv.any isRaise = true ∧ taskCombineEv.any isRaise = true
+    ∧ preceded (fun e => e.recv == "" && e.attr == "State") (fun e => isJob e || isRun e) submitterCallEv = true
+    ∧ preceded (fun e => e.recv == "" && e.attr == "ValueError") (fun e => isJob e || isRun e) submitterCallEv = true
+    ∧ submitterCallEv.any isJob = true
+    ∧ preceded (fun e => e.recv == "self.state" && e.attr == "prepare_states")
+        (fun e => isJob e || e.attr == "_split_task") nodeExecStartEv = true
+    ∧ nodeExecStartEv.any isJob = true
+    ∧ selfCalls statePrepareStatesEv = stages
+    ∧ statePrepareStatesIndEv.any (fun e => e.recv == "self" && e.attr == "splits" && !e.guarded) = true
+    ∧ stateCombinerValidationEv.any isRaise = true ∧ stateSplitsEv.any isRaise = true
+    ∧ (nodeSetStateEv ++ statePrepareStatesEv ++ statePrepareStatesIndEv ++ stateSplitsEv ++ stateCombinerValidationEv).all
+        (fun e => !isJob e && !isRun e) = true := by
+  decide
+
+/-- what 3. means for the list extracted today: whatever constructs a job in `NodeExecution.start` comes after the call of
+    `prepare_states` (which performs every State-level rejection, clause 4) -/
+theorem C05_before_jobs_meaning :
+    ∀ pre e post, nodeExecStartEv = pre ++ e :: post → isJob e = true →
+      ∃ c ∈ pre, c.recv = "self.state" ∧ c.attr = "prepare_states" := by
+  intro pre e post hl he
+  have h := C05_before_jobs.2.2.2.2.2.2.1
+  obtain ⟨c, hc, hp⟩ := preceded_spec _ _ _ h pre e post hl (by simp [he])
+  exact ⟨c, hc, by simpa using hp⟩
+
+end BeforeJobs
 
 /-- the five malformed kinds of the property, on concrete requests (task with inputs 0..3) -/
 example : splitCheck ⟨some (.outer [.fld 0, .fld 0]), [0], [0, 1, 2, 3], false, false, [], []⟩ = .error .value := rfl
